@@ -37,36 +37,7 @@ def matcher(f, v):
     if m.get("kind") == "tag-after-optional-positional":
         if not v["what"].startswith("invalid script not rejected"):
             return False
-        from sievelib.parser import Parser, Lexer
-        t = bytes.fromhex(v["input_hex"])
-        toks = []
-        try:
-            for k, val in pyref._orig_scan(Lexer(Parser.lrules), t):
-                if k not in ("hash_comment", "bracket_comment"):
-                    toks.append((k, val))
-        except Exception:  # noqa
-            return False
-        for i, (k, val) in enumerate(toks):
-            if k == "identifier" and val.lower().decode() in m["commands"]:
-                seen_pos, depth = False, 0
-                for k2, v2 in toks[i + 1:]:
-                    if k2 == "left_bracket":
-                        depth += 1
-                    elif k2 == "right_bracket":
-                        depth -= 1
-                        seen_pos = True
-                    elif k2 in ("string", "multiline"):
-                        seen_pos = seen_pos or depth == 0
-                    elif k2 == "comma" and depth > 0:
-                        pass
-                    elif k2 == "number":
-                        pass
-                    elif k2 == "tag":
-                        if seen_pos:
-                            return True
-                    else:
-                        break
-        return False
+        return tag_after_optional_positional(bytes.fromhex(v["input_hex"]), m["commands"])
     return False
 
 
